@@ -563,6 +563,23 @@ def k_gridded(c):
             break
     out.append((bad is None, f'{fam}/history',
                 f'{desc}: a fresh model evaluated only at {bad} differs from the model with an evaluation history', None))
+    # re-configuring a copy (the copy shares the ePSF grid by reference) leaves the original alone
+    mc2, md2 = m.copy(), m.deepcopy()
+    bad = None
+    for mm in (mc2, md2):
+        mm.oversampling = (osy + 1, osx + 2)
+        mm.fill_value = 3.25
+        lab, px, py = pts[idx[0]]
+        _ = ev(mm, px, py)
+    for k in list(idx[:3]):
+        lab, px, py = pts[k]
+        if not _same(ev(m, px, py), first[k]):
+            bad = (lab, px, py)
+            break
+    out.append((bad is None and tuple(int(v) for v in m.oversampling) == (int(osy), int(osx)),
+                f'{fam}/history', f'{desc}: setting oversampling / fill_value on a copy changed what the '
+                f'original model returns (first difference at {bad}; original oversampling now '
+                f'{list(m.oversampling)})', None))
     # linear in flux; fill outside the ePSF footprint
     lab, px, py = pts[idx[0]]
     v2 = ev(m, px, py, flux=2 * F)
